@@ -268,7 +268,9 @@ func (ex *Exec) callInvoke(c *ssa.CallCommon, recv Value, args []Value, pos toke
 	key := typeName(it) + "." + c.Method.Name()
 	// statically known concrete receiver with an in-repo method?
 	r := sc(recv)
-	if b, ok := ex.boxes[r.S]; ok {
+	// `pragma ifacecalls abstract`: interface calls always go through the interface's type contract
+	abstract := ex.top != nil && ex.top.contract != nil && ex.top.contract.Pragmas["ifacecalls"] == "abstract"
+	if b, ok := ex.boxes[r.S]; ok && !abstract {
 		if m := ex.ld.prog.LookupMethod(b.t, c.Method.Pkg(), c.Method.Name()); m != nil {
 			if ex.findContract(m) != nil || ex.specs.Stubs[stubKey(m)] != nil {
 				return ex.callStatic(c, FuncV{Fn: m}, append([]Value{b.v}, args...), pos)
